@@ -87,6 +87,11 @@ def forged_signature(obj, auto=True, args=(), kwargs={}):
         :ref:`autofwd limits`
     """
     subject = _util.get_introspectable(obj, af_hint=auto)
+    if _util.answers_every_name(subject):
+        # eg. attribute-chaining proxies: the _sigtools__* attributes they
+        # appear to have mean nothing
+        return _signatures.UpgradedSignature._upgrade_with_warning(
+            _signatures.signature(obj))
     forger = getattr(subject, '_sigtools__forger', None)
     if forger is not None:
         ret = forger(obj=subject)
